@@ -31,7 +31,7 @@ def main():
         "hooks": {
             "guard": "IMAGED11_VERIF",
             "enable": "no source hooks exist: scheduling points come from gcc -fsanitize=thread instrumentation of the unmodified sources linked against vt/c/vrt.c, from an AST transformation of the unmodified numba sources, and from substitution of executors inside the harness process; the guard name is reserved",
-            "baseline_off_cmd": "cd /repo && /venv/bin/python -m pytest -ra -q -p no:cacheprovider --timeout=900 --continue-on-collection-errors",
+            "baseline_off_cmd": "cd /repo && /venv/bin/python setup.py -q build_ext --inplace && /venv/bin/python -m pytest -ra -q -p no:cacheprovider --timeout=900 --continue-on-collection-errors",
             "source_commits": [],
             "add_only": True,
         },
